@@ -206,6 +206,8 @@ func runC02(c *Ctx) {
 		"if true then 1 else tickI(2)", "tickI(1) + tickI(2) * 0", "let k = tickI(5); k + k", "[tickI(1), 2].size()",
 		"(x -> tickI(x))(3)", "try tickI(1) + [1][5] catch tickI(2)", "false & tickI(true)", "true | tickI(false)",
 		"switch 2 case 1 : tickI(10) case 2 : tickI(20) default tickI(30)", "tickP(1) + 2", "(x -> x + tickP(1))(2)",
+		// a constant closure applied to the WRONG number of constant arguments is not folded (optimizer.go: closure.Args != len(fc.Args)): an error with and without
+		"(x -> x + 1)(1, 2) + a", "let f = x -> x; f() + a", "((x, y) -> x)(1) + a", "try (x -> x + 1)(1, 2) catch a", "[1, 2].map(e -> ((x, y) -> x + y)(e)).sum() + a", "{f: x -> x}.f(1, 2) + a", "try {f: (x, y) -> x}.f(1) catch a",
 		"\"a\" + 1 + 2", "1 + 2 + \"a\"", "a + 1 + 2", "1 + a + 2", "a * 2 * 3", "2 * a * 3", "a - 1 - 2", "a / 2 / 4"} {
 		for _, a := range []value.Value{value.Int(3), value.Bool(true), value.Float(2.5), value.String("s"), value.Int(1 << 62)} {
 			cases = append(cases, ccase{src, []string{"a"}, []value.Value{a}, true})
